@@ -34,7 +34,7 @@ def _strip(o):
 def _scalar(x):
     if isinstance(x, np.ndarray):
         x = x.reshape(-1)[0]
-    return to_rat(x) if not isinstance(x, core.UndefinedValue) else x
+    return to_rat(x) if not harness.nonfinite(x) else x
 
 
 def _new():
@@ -122,11 +122,11 @@ def job_perm(label, n, Kc, empty_col=False, timeout_q=20.0, max_paths=1500):
             S2 = _scalar(S2)
             G2 = np.asarray(G2, dtype=object)
             ptag = f"{tag}/sigma{list(sg)}tau{list(tau)}"
-            obs = [("score invariant", S2 - S)] if not (isinstance(S, core.UndefinedValue) or isinstance(S2, core.UndefinedValue)) else []
+            obs = [("score invariant", S2 - S)] if not (harness.nonfinite(S) or harness.nonfinite(S2)) else []
             Gp = G[list(sg)][:, list(tau)]
             for i in range(n):
                 for k in range(Kc):
-                    if isinstance(G2[i, k], core.UndefinedValue) or isinstance(Gp[i, k], core.UndefinedValue):
+                    if harness.nonfinite(G2[i, k]) or harness.nonfinite(Gp[i, k]):
                         continue     # definedness is the closed-simplex job's subject
                     obs.append((f"grad equivariant[{i},{k}]", to_rat(G2[i, k]) - to_rat(Gp[i, k])))
             for nm, dterm in obs:
@@ -306,17 +306,17 @@ def job_closed(label, n, Kc, timeout_q=10.0, max_paths=3000):
                 bad_seen = _concrete_fallback(res, label, n, Kc, pc, "closed")
             continue
         S, G = out
-        flat = [S if isinstance(S, core.UndefinedValue) else _scalar(S)] + list(np.asarray(G, dtype=object).reshape(-1))
-        undefined = [x for x in flat if isinstance(x, core.UndefinedValue)]
+        flat = [S if harness.nonfinite(S) else _scalar(S)] + list(np.asarray(G, dtype=object).reshape(-1))
+        undefined = [x for x in flat if harness.nonfinite(x)]
         if undefined:
             v, model = harness.reachable(pc, timeout_s=8.0)
             res["queries"] += 1
-            o = {"name": tag + "/defined", "verdict": "sat" if v == "sat" else ("unsat" if v == "unsat" else "unknown"), "how": "undefined value: " + undefined[0].why}
+            o = {"name": tag + "/defined", "verdict": "sat" if v == "sat" else ("unsat" if v == "unsat" else "unknown"), "how": "undefined value: " + getattr(undefined[0], "why", repr(undefined[0]))}
             if v == "sat":
                 rep = {"kind": "closed", "label": label, "n": n, "K": Kc, "model": _model_pam(model)}
                 if replay(rep):
                     if not bad_seen:
-                        res["violations"].append({"signature": f"{PROP}:{label}:finite", "what": f"{label}: score/gradient not finite on the closed simplex ({undefined[0].why})", "replay": rep})
+                        res["violations"].append({"signature": f"{PROP}:{label}:finite", "what": f"{label}: score/gradient not finite on the closed simplex ({getattr(undefined[0], 'why', repr(undefined[0]))})", "replay": rep})
                         bad_seen = True
                 else:
                     o["verdict"] = "inconclusive"
